@@ -81,7 +81,7 @@ class P(Prop):
         (M, "TV.C04.insert_sorted", "T3: insertion into a time-sorted track: permutation of new::old, still non-decreasing in time"),
         (M, "TV.C04.extract_spec", "extract(a,b) = exactly the observations a..b (both ends included), feature names carried"),
         (M, "TV.C04.extractSpanTime_spec", "extractSpanTime = exactly the observations in the closed span, bounds in either order"),
-        (M, "TV.C04.concat_spec", "t1 + t2 = observations of t1 then of t2; a common feature-name table is carried"),
+        (M, "TV.C04.concat_spec", "t1 + t2 = observations of t1 then of t2; its table is t1's when the two lists of NAMES are equal position by position, the empty table otherwise"),
         (M, "TV.C04.decimateStep_spec", "track % n = sub-sequence at the positions = 0 mod n (i-th result = (i*n)-th source)"),
         (M, "TV.C04.decimatePattern_spec", "track % pattern = sub-sequence at the positions j with pattern[j mod len] true"),
         (M, "TV.C04.dropFirst_spec", "track > n = all but the first n observations"),
@@ -91,17 +91,53 @@ class P(Prop):
         (M, "TV.C04.sort_spec", "sort with ANY sorting permutation from argsort: same records (permutation), non-decreasing times, names unchanged"),
         (M, "TV.C04.argsort_isArgsort", "the model's argsort satisfies the sorting-permutation contract"),
         (M, "TV.C04.sortByTime_spec", "sort as run by the driver: permutation of the records, non-decreasing times"),
+        # ---- the feature table (names -> columns) is carried over: reads by name
+        (M, "TV.C04.extract_carries", "extract(a,b), any integers: the result has the source's table (names and columns), each of its observations is one of the source and reads under every name what it read there"),
+        (M, "TV.C04.extractSpanTime_carries", "extractSpanTime: same (Carries)"),
+        (M, "TV.C04.extractSpanTrack_spec", "extractSpanTime(track) = the span of the other track's first and last timestamps"),
+        (M, "TV.C04.extractSpanTrack_carries", "extractSpanTime(track): Carries"),
+        (M, "TV.C04.decimateStep_carries", "track % n (any n != 0): Carries"),
+        (M, "TV.C04.decimatePattern_carries", "track % pattern: Carries"),
+        (M, "TV.C04.dropFirst_carries", "track > n (any integer): Carries"),
+        (M, "TV.C04.dropLast_carries", "track < n (any integer): Carries"),
+        (M, "TV.C04.getitemSlice_carries", "track[a:b:c] (any slice): Carries"),
+        (M, "TV.C04.sort_carries", "sort() with any permutation from argsort: table unchanged, every observation reads as before"),
+        (M, "TV.C04.removeObsList_carries", "removeObsList / removeObs / removeFirstObs / removeLastObs / popObs, any index list: table unchanged, the remaining observations read as before"),
+        (M, "TV.C04.insert_carries", "insertObs(obs) / insertObs(obs,i) / addObs(obs): table unchanged, old observations read as before, the new one reads its own value list through the table"),
+        (M, "TV.C04.table_wellformed", "the empty table is well-formed (distinct names, column = rank); createAnalyticalFeature and removeAnalyticalFeature keep a table well-formed"),
+        (M, "TV.C04.concat_carries", "t1 + t2 with equal name lists and well-formed tables: the sum has that table and EVERY observation, those of t2 too, reads under every name what it read in its own track"),
+        (M, "TV.C04.concat_names_differ", "t1 + t2 with different name lists (other set, other order, one side without features): the sum lists no feature, every read by name is an AnalyticalFeatureError"),
+        (M, "TV.C04.applyOp_good", "one operation of a session (any operator of the statement, on any tracks of the pool) keeps every track of the pool 'good': well-formed table, every observation reads its OWN value under every listed name"),
+        (M, "TV.C04.finalPool_good", "operators applied in sequence (results fed to the next operator): every track of the pool is good at the end"),
+        (M, "TV.C04.good_readAF", "on a good track, track[name, i] is the own value of the i-th observation"),
+        # ---- the other entry points
+        (M, "TV.C04.addObs_spec", "addObs appends"),
+        (M, "TV.C04.insertAt_spec", "insertObs(obs, i), 0 <= i <= size: the observation is at position i, the others in order around it"),
+        (M, "TV.C04.removeObs_spec", "removeObs(i), valid i: exactly that observation is removed, 1 returned"),
+        (M, "TV.C04.removeFirst_spec", "removeFirstObs on a non-empty track: all but the first, 1 returned"),
+        (M, "TV.C04.removeLast_spec", "removeLastObs on a non-empty track: all but the last, 1 returned"),
+        (M, "TV.C04.popObs_spec", "popObs(i), valid i: returns the i-th observation and removes exactly it"),
+        (M, "TV.C04.getitemInt_spec", "track[i] = the i-th observation; track[-(i+1)] = the (size-1-i)-th"),
+        (M, "TV.C04.getitemSlice_spec", "track[a:b:c], c >= 1: the positions s, s+c, ... < e with s, e the bounds clamped as Python does (= (track[a:b]) % c), table carried"),
+        (M, "TV.C04.getitemSlice_simple", "track[a:b], 0 <= a, b: the positions a <= j < b"),
+        (M, "TV.C04.sortRadix_spec", "sortRadix with every digit inside its buckets (years 1970..2069): no IndexError, a permutation, ordered lexicographically by (year, month, day, hour, min, sec*1000+ms), stable"),
+        (M, "TV.C04.sortRadix_sorted", "sortRadix: if the lexicographic order of the fields implies the order of the timestamps (C03), the result is non-decreasing in time and a permutation of the records"),
     ]
     partial = []
     open_statements = [
-        "'without modifying the source track' cannot be stated about a purely functional model: it is checked on the real code by the oracle (the source is dumped after every operator)",
+        "'without modifying the source track' cannot be stated about a purely functional model (observations are values, tracks share none): it is checked on the real code by the oracle — every track of the pool is dumped after every operation of a session, and a feature created afterwards on one track must not appear in another's table",
+        "track[a:b:c] with a NEGATIVE step and sortRadix on a timestamp outside 1970..2069 / with a non-integer ms are modelled (reversed walk; IndexError / wrap-around of a negative bucket index) and compared with the code, not covered by a theorem",
         "(int)(math.log(N)/math.log(2)) = floor(log2 N) is a float computation outside the theorems: T1/T2 hold for any first step 2^j with 2*2^j <= N; the 'ilog' stream checks the expression for every N <= 2^16 (2^21 thorough) and around every 2^k, k < 40",
         "arguments with no designated observation (negative indices / counts, index >= size, zero step, empty pattern) are modelled and compared with the code but are outside the property's oracle",
     ]
-    modelled = ("Track.__getInsertionIndex (dichotomy + two fix-up loops), insertObs/insertObsInChronoOrder, sort (np.argsort = trusted call "
-                "with the contract 'sorting permutation'), removeObsList/__removeObsListById/__removeObsById, extract, extractSpanTime, "
-                "__add__, __mod__ (int and list), __gt__/__lt__ with an integer, __transmitAF; timestamps as integers (C03 proves the "
-                "field-wise order is the epoch order)")
+    modelled = ("Track.__getInsertionIndex (dichotomy + two fix-up loops), insertObs (with and without index) / insertObsInChronoOrder / addObs, "
+                "sort (np.argsort = trusted call with the contract 'sorting permutation'), sortRadix (the six bucket passes on positions), "
+                "removeObsList/__removeObsListById/__removeObsById, removeObs / removeFirstObs / removeLastObs / popObs, extract, "
+                "extractSpanTime (two instants or a track), __add__, __mod__ (int and list), __gt__/__lt__ with an integer, "
+                "__getitem__ (integer, slice with CPython's index adjustment, (name, i) / (i, name), name), __transmitAF; the feature table "
+                "__analyticalFeaturesDico as (name, column) pairs with getObsAnalyticalFeature / getAnalyticalFeature / "
+                "createAnalyticalFeature (list or scalar) / removeAnalyticalFeature on non-reserved names; an interpreter applying these "
+                "operations in sequence to a pool of tracks. Timestamps as integers (C03 proves the field-wise order is the epoch order)")
     trusted = ["numpy argsort on an object array: only 'returns a sorting permutation' is assumed (it is not stable for ties); "
                "CPython list.insert / del / slices / negative indices modelled as documented",
                "(int)(math.log(N)/math.log(2)) modelled as floor(log2 N); the theorems hold for any first step 2^j with 2*2^j <= N"]
@@ -109,7 +145,16 @@ class P(Prop):
             "insertion and for sort; every sorted track of sizes 0..70 x every instant for the insertion index; random sorted tracks with ties of "
             "sizes 2^k, 2^k+-1 up to 1025; all index pairs -1..n / spans 0..8 (reversed, empty) / steps -2..n+2 / patterns of length <= 4 / "
             "trims -2..n+2 / index lists of length <= 3 over -1..n and all subsets, on sizes <= 6; the float expression of the first step for every N <= 2^16 (2^21 thorough). "
-            "non-trivial = the track has at least 2 observations (so a loop of the operation runs)")
+            "Tracks are built through createAnalyticalFeature (one column per creation) and every dump reads every listed feature BY NAME through "
+            "getObsAnalyticalFeature; the oracle requires every observation of every result to read its own value. "
+            "Sessions: 1-3 tracks whose features are created / removed / re-created in 11 different histories (column orders f,g / g,f / g,h,f / ...), then "
+            "1-7 operators applied in sequence, each on any track of the pool (results included), every track of the pool dumped after every "
+            "operation (source-unmodified), optionally a feature created at the end on one track (table aliasing): every slice "
+            "(start, stop in None, -n-1..n+1, step in None,1,2,3,-1,-2,0), track[i], insertObs(obs,i), removeObs, popObs, the three read forms, for every i in "
+            "-n-2..n+2 on sizes 0..4; every pair of histories x '+' (also with an empty operand that carries a table); every history x every operator followed "
+            "by a second operator; 4000 (40000 thorough) random chains. sortRadix: pairs later in one field and earlier in every / one less significant field, "
+            "random tracks of 1..40 timestamps (years 1970..2069, a few beyond: IndexError). "
+            "non-trivial = a track has at least 2 observations (so a loop of the operation runs)")
 
     # ---------------------------------------------------------------- setup / construction
     def setup(self):
@@ -184,7 +229,11 @@ class P(Prop):
                 "% n for n in -2..n+2; % pattern for every pattern of length 0..4; > n and < n for n in -2..n+2; on sizes 0..6",
                 "removeObsList for every index list of length <= 3 over -1..n (duplicates and out-of-range included) on sizes 0..5, "
                 "and every subset of the indices on sizes <= 6",
-                "+ for sizes 0..3 x 0..3 x equal / different / missing feature tables"]
+                "+ for sizes 0..3 x 0..3 x equal / different / missing feature tables",
+                "one-operation sessions on sizes 0..4: track[a:b:c] for a, b in None, -n-1..n+1 and c in None, 1, 2, 3, -1, -2, 0; track[i], removeObs(i), popObs(i), "
+                "insertObs(obs, i) (3 instants), track[name, i] / track[i, name] / getObsAnalyticalFeature for 3 names, for every i in -n-2..n+2; track[name]; "
+                "removeFirstObs, removeLastObs, addObs; extractSpanTime(track) for every other track of size 0..2 over {1,3,5,7}",
+                "every ordered pair of the 11 feature histories x '+' (two size pairs), the sum fed to a second operator and to '+' again, and '+' with an empty operand carrying a table"]
 
     def cases(self, rng, tier):
         out = []
